@@ -134,6 +134,12 @@ pub fn compare(h: &History, r: &RealOut) -> Option<Result<(), String>> {
 }
 
 pub struct Sweep {
+    /// process-level cases (C15 only) executed by the real binary
+    pub proc_cases: u64,
+    /// runs which the real binary ended by aborting (panic status 101 or a signal) while the
+    /// simulated run ends properly: whatever the reason for the difference, the shipped program
+    /// aborted on this file and input
+    pub real_aborts: Vec<(u64, String)>,
     /// runs for which the real binary disagreed with itself (a C19 violation, not a simulator bug)
     pub not_reproducible: Vec<(u64, String)>,
     pub sessions: u64,
@@ -146,7 +152,7 @@ pub struct Sweep {
 pub fn sweep(prop: &str, seed: u64, n: u64, stride: u64, threads: usize, dir: &str) -> Sweep {
     let bin = match real_bin() {
         Some(b) => b,
-        None => return Sweep { not_reproducible: vec![], sessions: 0, compared: 0, not_comparable: 0, mismatches: vec![] },
+        None => return Sweep { proc_cases: 0, real_aborts: vec![], not_reproducible: vec![], sessions: 0, compared: 0, not_comparable: 0, mismatches: vec![] },
     };
     let mut handles = Vec::new();
     for t in 0..threads {
@@ -156,7 +162,7 @@ pub fn sweep(prop: &str, seed: u64, n: u64, stride: u64, threads: usize, dir: &s
         let h = std::thread::Builder::new()
             .stack_size(64 << 20)
             .spawn(move || {
-                let mut s = Sweep { not_reproducible: vec![], sessions: 0, compared: 0, not_comparable: 0, mismatches: vec![] };
+                let mut s = Sweep { proc_cases: 0, real_aborts: vec![], not_reproducible: vec![], sessions: 0, compared: 0, not_comparable: 0, mismatches: vec![] };
                 let mut k = t as u64;
                 while k < n {
                     let run = k * stride.max(1);
@@ -183,6 +189,12 @@ pub fn sweep(prop: &str, seed: u64, n: u64, stride: u64, threads: usize, dir: &s
                         None => s.not_comparable += 1,
                         Some(Ok(())) => s.compared += 1,
                         Some(Err(e)) => {
+                            if let Some(how) = aborted(&r) {
+                                if matches!(hist.ended(), Some(Event::Return) | Some(Event::Exit(_))) {
+                                    s.real_aborts.push((run, format!("the real binary {} on this file and input (the simulated run ends properly): {}", how, first_lines(&r.stderr, 3))));
+                                    continue;
+                                }
+                            }
                             // is the real binary even consistent with itself?
                             let mut outs = vec![(r.stdout.clone(), r.code)];
                             for k in 0..4 {
@@ -219,7 +231,7 @@ pub fn sweep(prop: &str, seed: u64, n: u64, stride: u64, threads: usize, dir: &s
             .unwrap();
         handles.push(h);
     }
-    let mut total = Sweep { not_reproducible: vec![], sessions: 0, compared: 0, not_comparable: 0, mismatches: vec![] };
+    let mut total = Sweep { proc_cases: 0, real_aborts: vec![], not_reproducible: vec![], sessions: 0, compared: 0, not_comparable: 0, mismatches: vec![] };
     for h in handles {
         if let Ok(s) = h.join() {
             total.sessions += s.sessions;
@@ -227,7 +239,191 @@ pub fn sweep(prop: &str, seed: u64, n: u64, stride: u64, threads: usize, dir: &s
             total.not_comparable += s.not_comparable;
             total.mismatches.extend(s.mismatches);
             total.not_reproducible.extend(s.not_reproducible);
+            total.real_aborts.extend(s.real_aborts);
         }
     }
     total
+}
+
+/// did the process end by aborting? (a panic leaves with status 101, a stack overflow or an
+/// allocation failure with a signal). A process that was killed for taking too long is not
+/// counted here: on a busy machine that proves nothing.
+pub fn aborted(r: &RealOut) -> Option<String> {
+    if r.timed_out {
+        return None;
+    }
+    match r.code {
+        None => Some("was ended by a signal (stack overflow, abort)".to_owned()),
+        Some(101) => Some("panicked (exit status 101)".to_owned()),
+        _ => {
+            if r.stderr.contains("panicked at") {
+                Some("panicked".to_owned())
+            } else {
+                None
+            }
+        }
+    }
+}
+
+pub fn first_lines(t: &str, n: usize) -> String {
+    t.lines().filter(|l| !l.trim().is_empty()).take(n).collect::<Vec<_>>().join(" | ").chars().take(300).collect()
+}
+
+/// One process-level case for the real binary: command line, the file (if any), stdin.
+/// bin.rs is a stub inside the simulation (DESIGN section 11): argument handling, reading the file
+/// and the stack of the thread that runs the driver are only real here.
+pub struct ProcCase {
+    pub name: String,
+    /// None: no file argument; Some(bytes): a file with these bytes is written and passed
+    pub file: Option<Vec<u8>>,
+    /// what is passed instead of a readable file: "missing" | "directory" | ""
+    pub special: &'static str,
+    pub flags: Vec<&'static str>,
+    pub stdin: Vec<u8>,
+}
+
+pub fn macro_chain(depth: usize) -> Vec<u8> {
+    let mut t = String::from("macro c_0() -> inc ax <-\n");
+    for d in 1..=depth {
+        t.push_str(&format!("macro c_{}() -> c_{}() <-\n", d, d - 1));
+    }
+    t.push_str(&format!("start:\nc_{}()\nprint reg\n", depth));
+    t.into_bytes()
+}
+
+pub fn proc_cases() -> Vec<ProcCase> {
+    let mut v = Vec::new();
+    let mut add = |name: &str, file: Option<Vec<u8>>, special: &'static str, flags: Vec<&'static str>, stdin: &[u8]| {
+        v.push(ProcCase { name: name.to_owned(), file, special, flags, stdin: stdin.to_vec() });
+    };
+    add("no_arguments", None, "", vec![], b"");
+    add("only_the_flag", None, "", vec!["-i"], b"");
+    add("unknown_flag", None, "", vec!["--bogus"], b"");
+    add("help", None, "", vec!["-h"], b"");
+    add("version", None, "", vec!["-V"], b"");
+    add("missing_file", None, "missing", vec![], b"");
+    add("missing_file_interpreted", None, "missing", vec!["-i"], b"n\n");
+    add("directory_as_file", None, "directory", vec![], b"");
+    add("empty_file", Some(vec![]), "", vec![], b"");
+    add("empty_file_interpreted", Some(vec![]), "", vec!["-i"], b"");
+    add("only_newlines", Some(b"\n\n\n".to_vec()), "", vec![], b"");
+    add("only_a_comment_no_newline", Some(b"; nothing".to_vec()), "", vec![], b"");
+    add("no_final_newline", Some(b"start:\nmov ax, 1\nprint reg".to_vec()), "", vec![], b"");
+    add("no_final_newline_interpreted", Some(b"start:\nmov ax, 1\nprint reg".to_vec()), "", vec!["-i"], b"n\nn\nn\nn\n");
+    add("one_line_no_newline", Some(b"start: hlt".to_vec()), "", vec![], b"");
+    add("crlf", Some(b"start:\r\nmov ax, 1\r\nprint reg\r\n".to_vec()), "", vec![], b"");
+    add("byte_order_mark", Some(b"\xEF\xBB\xBFstart:\nmov ax, 1\n".to_vec()), "", vec![], b"");
+    add("not_utf8", Some(b"start:\nmov ax, 1 ; \xFF\xFE\n".to_vec()), "", vec![], b"");
+    add("nul_bytes", Some(b"start:\n\0\0mov ax, 1\n".to_vec()), "", vec![], b"");
+    add("interpreted_closed_stdin", Some(b"start:\nmov ax, 1\nmov bx, 2\nprint reg\n".to_vec()), "", vec!["-i"], b"");
+    add("service_closed_stdin", Some(b"start:\nmov ah, 1\nint 0x21\nmov ah, 0x0a\nmov dx, 16\nmov byte [16], 5\nint 0x21\nprint reg\n".to_vec()), "", vec![], b"");
+    for d in [10usize, 50, 90, 99, 100, 101, 150, 400] {
+        add(&format!("macro_chain_{}", d), Some(macro_chain(d)), "", vec![], b"");
+    }
+    add("macro_chain_100_interpreted", Some(macro_chain(100)), "", vec!["-i"], b"n\nn\nn\nn\n");
+    {
+        // nesting of another kind: a long expression-free line, deep brackets, many parameters
+        let mut t = String::from("start:\nmov ax, ");
+        t.push_str(&"(".repeat(3000));
+        t.push('1');
+        t.push_str(&")".repeat(3000));
+        t.push('\n');
+        add("deep_brackets", Some(t.into_bytes()), "", vec![], b"");
+        let params: Vec<String> = (0..3000).map(|i| format!("p{}", i)).collect();
+        let t = format!("macro m({}) -> inc ax <-\nstart:\nm({})\n", params.join(","), vec!["1"; 3000].join(","));
+        add("macro_3000_parameters", Some(t.into_bytes()), "", vec![], b"");
+        let mut t = String::from("start:\n");
+        for i in 0..2000 {
+            t.push_str(&format!("def p{} {{ call p{} }}\n", i, i + 1));
+        }
+        t.push_str("def p2000 { inc ax }\ncall p0\nprint reg\n");
+        add("call_chain_2000", Some(t.into_bytes()), "", vec![], b"");
+    }
+    v
+}
+
+pub fn run_proc_case(c: &ProcCase, bin: &str, dir: &str, tag: &str, timeout: Duration) -> Option<RealOut> {
+    let _ = std::fs::create_dir_all(dir);
+    let path = format!("{}/{}.s", dir, tag);
+    let mut cmd = Command::new(bin);
+    for f in &c.flags {
+        cmd.arg(f);
+    }
+    match (&c.file, c.special) {
+        (Some(b), _) => {
+            std::fs::write(&path, b).ok()?;
+            cmd.arg(&path);
+        }
+        (None, "missing") => {
+            let _ = std::fs::remove_file(&path);
+            cmd.arg(&path);
+        }
+        (None, "directory") => {
+            cmd.arg(dir);
+        }
+        _ => {}
+    }
+    cmd.stdin(Stdio::piped()).stdout(Stdio::piped()).stderr(Stdio::piped());
+    let mut child = cmd.spawn().ok()?;
+    let mut stdin = child.stdin.take()?;
+    let bytes = c.stdin.clone();
+    let feeder = std::thread::spawn(move || {
+        let _ = stdin.write_all(&bytes);
+    });
+    let mut out = child.stdout.take()?;
+    let mut err = child.stderr.take()?;
+    let t_out = std::thread::spawn(move || {
+        let mut v = Vec::new();
+        let _ = out.read_to_end(&mut v);
+        v
+    });
+    let t_err = std::thread::spawn(move || {
+        let mut v = Vec::new();
+        let _ = err.read_to_end(&mut v);
+        String::from_utf8_lossy(&v).into_owned()
+    });
+    let t0 = Instant::now();
+    let mut timed_out = false;
+    let status = loop {
+        match child.try_wait() {
+            Ok(Some(s)) => break Some(s),
+            Ok(None) => {
+                if t0.elapsed() > timeout {
+                    let _ = child.kill();
+                    timed_out = true;
+                    break child.wait().ok();
+                }
+                std::thread::sleep(Duration::from_millis(2));
+            }
+            Err(_) => break None,
+        }
+    };
+    let _ = feeder.join();
+    let stdout = t_out.join().unwrap_or_default();
+    let stderr = t_err.join().unwrap_or_default();
+    let _ = std::fs::remove_file(&path);
+    Some(RealOut { stdout, stderr, code: status.and_then(|s| s.code()), timed_out })
+}
+
+/// What a process-level case must satisfy: the process ends by itself, with a result or a
+/// diagnostic - no panic, no signal. (Ending is judged with a very generous limit and re-tried
+/// once: a slow machine is not a hang.) Returns the violation text.
+pub fn judge_proc_case(c: &ProcCase, bin: &str, dir: &str, tag: &str) -> Option<String> {
+    let r = run_proc_case(c, bin, dir, tag, Duration::from_secs(120))?;
+    if let Some(how) = aborted(&r) {
+        return Some(format!("the real binary {}: {}", how, first_lines(&r.stderr, 3)));
+    }
+    if r.timed_out {
+        let r2 = run_proc_case(c, bin, dir, tag, Duration::from_secs(300))?;
+        if r2.timed_out {
+            return Some("the real binary did not end within 300 s on a tiny input".to_owned());
+        }
+        if let Some(how) = aborted(&r2) {
+            return Some(format!("the real binary {}: {}", how, first_lines(&r2.stderr, 3)));
+        }
+    }
+    if r.stdout.is_empty() && r.stderr.is_empty() && r.code != Some(0) {
+        return Some(format!("the real binary left with status {:?} without saying anything", r.code));
+    }
+    None
 }
